@@ -236,8 +236,16 @@ Proof.
   unfold_ops. repeat chk_next'.
   destruct (ut_offset (a_std a) ?= ut_offset (a_dst a)).
   - apply postr_ok. exact I.
-  - repeat match goal with |- context [if ?c then _ else _] => destruct c end; apply postr_ok; exact I.
-  - repeat match goal with |- context [if ?c then _ else _] => destruct c end; apply postr_ok; exact I.
+  - (* robust to both forms of the hemisphere test (month comparison via transition_date, or the
+       comparison of the two switch instants of fixes/C05-rule-same-month.diff) *)
+    try (destruct (transition_date_spec (dst_start a) y Hds Hy) as ([ms ?] & -> & _);
+         destruct (transition_date_spec (dst_end a) y Hde Hy) as ([me ?] & -> & _); cbv beta iota).
+    repeat match goal with |- context [if ?c then _ else _] => destruct c end; apply postr_ok; exact I.
+  - (* robust to both forms of the hemisphere test (month comparison via transition_date, or the
+       comparison of the two switch instants of fixes/C05-rule-same-month.diff) *)
+    try (destruct (transition_date_spec (dst_start a) y Hds Hy) as ([ms ?] & -> & _);
+         destruct (transition_date_spec (dst_end a) y Hde Hy) as ([me ?] & -> & _); cbv beta iota).
+    repeat match goal with |- context [if ?c then _ else _] => destruct c end; apply postr_ok; exact I.
 Qed.
 
 Lemma rule_find_local_time_type_from_local_total r y lt : rule_ok r ->
